@@ -41,6 +41,12 @@ def volatile_of(m):
 
 
 @spec(params=dict(m=SMeta), returns=Bool, macro=True)
+def state_wf(m):
+    """the metadata of a State object: the keys State.__init__ creates (nothing in the library deletes them)"""
+    return rec_has(m, "is_error") and rec_has(m, "attributes") and rec_has(m, "type_identifier") and rec_has(m, "vars") and rec_has(m, "query")
+
+
+@spec(params=dict(m=SMeta), returns=Bool, macro=True)
 def admissible(m):
     """C05: finished, successful, non-volatile, caching not switched off"""
     return rec_has(m, "is_error") and not rec_get(m, "is_error") and not volatile_of(m) \
@@ -65,7 +71,8 @@ def _(self, data=None, metadata=None, context=None):
     ensures(not self.metadata_only and not rec_has(self.metadata, "status"), "default metadata carries no status")
     ensures(implies(isnone(metadata), rec_has(self.metadata, "is_error") and not rec_get(self.metadata, "is_error")
                     and not volatile_of(self.metadata) and rec_has(self.metadata, "caching") and rec_get(self.metadata, "caching")
-                    and rec_has(self.metadata, "query") and rec_get(self.metadata, "query") == ""), "the default metadata: no error, not volatile, caching on")
+                    and rec_has(self.metadata, "query") and rec_get(self.metadata, "query") == "" and state_wf(self.metadata)),
+            "the default metadata: no error, not volatile, caching on, standard keys")
 
 
 # ------------------------------------------------------------------ MemoryCache
@@ -146,6 +153,8 @@ def _(self, key):
     ensures(isnone(result) == (not retrievable(self, key)))
     ensures(implies(not isnone(result), fresh_ref(unopt(result)) and unopt(result).data == mapget(self.cdata, key)
                     and unopt(result).metadata == mapget(self.cmeta, key)))
+    ensures(implies(not isnone(result), state_wf(unopt(result).metadata)),
+            "assumed-of-every-cache,not-proved-on-the-implementations:a-cached-state-carries-the-standard-metadata-keys")
 
 
 @interface("Cache.get_metadata", params=dict(self=Ref("Cache"), key=Str), returns=Opt(SMeta))
